@@ -3,6 +3,7 @@ package main
 import (
 	"go/token"
 	"go/types"
+	"sync"
 
 	"golang.org/x/tools/go/ssa"
 )
@@ -348,7 +349,18 @@ func isMakeInterface(v ssa.Value) bool {
 // tree are expanded, so the paths of the unchanged tree are what they were.
 // ---------------------------------------------------------------------------------------------------------------------
 
-var classifierMemo = map[*ssa.Function][]*Path{}
+// classifierMemo is shared by the concurrently analysed variants and emptied at every load (it must not keep the
+// programs of earlier variants alive).
+var (
+	classifierMu   sync.Mutex
+	classifierMemo = map[*ssa.Function][]*Path{}
+)
+
+func resetClassifierMemo() {
+	classifierMu.Lock()
+	classifierMemo = map[*ssa.Function][]*Path{}
+	classifierMu.Unlock()
+}
 
 // classifierPaths: the paths of h if h is a pure classifier (no stores, no go/defer/send/map updates; every path returns
 // one constant as its single result), else nil.
@@ -356,10 +368,15 @@ func classifierPaths(h *ssa.Function) []*Path {
 	if h == nil || h.Blocks == nil || h.Parent() != nil || h.Object() == nil || knownOnPinnedTree(h) {
 		return nil
 	}
-	if ps, ok := classifierMemo[h]; ok {
+	classifierMu.Lock()
+	ps, ok := classifierMemo[h]
+	if !ok {
+		classifierMemo[h] = nil // a recursive classifier is none
+	}
+	classifierMu.Unlock()
+	if ok {
 		return ps
 	}
-	classifierMemo[h] = nil
 	if h.Signature.Results().Len() != 1 {
 		return nil
 	}
@@ -386,7 +403,9 @@ func classifierPaths(h *ssa.Function) []*Path {
 			return nil
 		}
 	}
+	classifierMu.Lock()
 	classifierMemo[h] = ps
+	classifierMu.Unlock()
 	return ps
 }
 
